@@ -29,7 +29,7 @@ var extraClauses = map[string][]string{
 	"C21": {"last-seen-adopted: in the session chat/command continuations the queue's fixed last-seen update is stored into the packet/builder before anything is returned on the paths where it is non-nil", "lock-released for chatQueue"},
 	"C23": {"redirect-filtered also fires when the copy is built with CreateBuilder() and no filtered Redirect replaces the copied target"},
 	"C24": {"lock-released for clientConfigSessionHandler", "bypass-only-with-a-backend: enqueuePluginMessage returns false (deliver directly) only behind target != nil", "overflow handling restated on the region past the totals that does not enqueue; deque operations are seen through helpers"},
-	"C26": {"payload-owned: Bytes() of a buffer kept in a struct field or returned to a pool does not escape (returned, stored, captured)"},
+	"C26": {"unknown-is-nil: a provider function of package proxy that returns a bungeecord interface does not convert a possibly-nil pointer (nil constant, or the result of a helper that can return nil) into it without a dominating nil test — a typed nil defeats the responder's `== nil` checks for unknown servers / players", "payload-owned: Bytes() of a buffer kept in a struct field or returned to a pool does not escape (returned, stored, captured)"},
 	"C27": {"lock-released for package resourcepack"},
 	"C28": {"update-not-dropped: every early return of processUpdateForEntry lies behind 'no add-player action' and 'entry is nil'", "lock-released for package internal/tablist"},
 	"C29": {"param-substitution: $i is replaced by groups[i-1], highest index first (ReplaceAll loop descending, or Replacer pairs listed descending)"},
